@@ -207,7 +207,10 @@ def coq_make(targets, timeout=1500, jobs=16):
 
 
 def coqc_file(path, timeout=600, cwd=None):
-    cmd = ["timeout", str(timeout), "coqc", "-Q", COQ, "Verif", path]
+    # generated case files hold very large list literals: give coqc's parser an unlimited stack
+    import shlex
+    cmd = ["bash", "-c", "ulimit -s unlimited 2>/dev/null || ulimit -s 4000000 2>/dev/null; exec timeout %d coqc -Q %s Verif %s"
+           % (timeout, shlex.quote(COQ), shlex.quote(path))]
     return sh(cmd, cwd=cwd or os.path.dirname(path), timeout=timeout + 30)
 
 
